@@ -437,6 +437,79 @@ func runC20(c *Ctx) {
 			r.Fail("stop/uses-snapshot", key, p.posStr(fd.Pos()), "stopWorkers must walk the snapshot returned by getWorkersAndShutdownOrder")
 		}
 	}
+	// (2c) a name is (re-)registered only while no goroutine of an earlier worker of that name can
+	// still clean up: the finished goroutine removes the entry BY NAME and clears the entry's running
+	// flag only afterwards (worker/done-cleanup-order), so the registration may install a new entry
+	// only on the edge on which the name is absent from the map or on which the existing entry's
+	// running flag - that flag itself, not a weaker combination - was read as false. Otherwise the stale
+	// cleanup deletes the new, running worker: it is never cancelled and never waited for at shutdown.
+	if fd := p.FuncDecl(pkg, "OrderedDaemon", "BackgroundWorker"); fd == nil {
+		r.Unresolved("reg/replaces-only-cleaned-up-worker", pkg+".OrderedDaemon.BackgroundWorker", "method not found")
+	} else {
+		key := pkg + ".OrderedDaemon.BackgroundWorker"
+		f := newFuncCFG(p, info, fd.Body, key)
+		isWorkersIndex := func(e ast.Expr) bool {
+			ix, ok := ast.Unparen(e).(*ast.IndexExpr)
+			return ok && strings.HasSuffix(rawKey(ix.X), ".workers")
+		}
+		stores := f.Find(func(n ast.Node) bool {
+			as, ok := n.(*ast.AssignStmt)
+			if !ok {
+				return false
+			}
+			for _, l := range as.Lhs {
+				if isWorkersIndex(l) {
+					return true
+				}
+			}
+			return false
+		})
+		var licensed []Edge
+		f.forEachEdgeFact(func(e Edge, b *cfg.Block, ft fact) {
+			if ft.Pol {
+				return
+			}
+			pt := Point{b, len(b.Nodes) - 1}
+			// the comma-ok result of a lookup in the workers map
+			if id, isId := ast.Unparen(ft.Atom).(*ast.Ident); isId {
+				if o := objOfIdent(info, id); o != nil {
+					if defs, fromEntry := f.ReachingDefs(pt, o); len(defs) == 1 && !fromEntry {
+						if as, isAs := f.nodeAt(defs[0].At).(*ast.AssignStmt); isAs && len(as.Lhs) == 2 && len(as.Rhs) == 1 && objOfIdent(info, as.Lhs[1]) == o && isWorkersIndex(as.Rhs[0]) {
+							licensed = append(licensed, e)
+						}
+					}
+				}
+				return
+			}
+			// <entry of the workers map>.running.Load()
+			if cl, isCall := ast.Unparen(ft.Atom).(*ast.CallExpr); isCall && len(cl.Args) == 0 {
+				if se, ok := ast.Unparen(cl.Fun).(*ast.SelectorExpr); ok && se.Sel.Name == "Load" {
+					if fs, ok := ast.Unparen(se.X).(*ast.SelectorExpr); ok && fs.Sel.Name == "running" {
+						if strings.Contains(f.KeyAt(fs.X, pt), ".workers[") {
+							licensed = append(licensed, e)
+						}
+					}
+				}
+			}
+		})
+		switch {
+		case len(stores) == 0 || len(licensed) == 0:
+			r.Fail("reg/replaces-only-cleaned-up-worker", key, p.posStr(fd.Pos()), fmt.Sprintf("expected a store into the workers map and a test of the name's presence / the existing entry's running flag (found %d / %d) (vacuous)", len(stores), len(licensed)))
+		default:
+			bad := ""
+			var wit []string
+			for _, st := range stores {
+				if w, only := f.OnlyThroughEdges(st, licensed); !only {
+					bad, wit = f.PosOf(st)+": a worker entry is installed on a path on which the name was present and the existing entry's running flag was not read as false: the goroutine of the earlier worker can still run its clean-up, which deletes the entry by name - the new worker is then unknown to the shutdown (never cancelled, never waited for)", w
+				}
+			}
+			if bad != "" {
+				r.Fail("reg/replaces-only-cleaned-up-worker", key, p.posStr(fd.Pos()), bad, wit...)
+			} else {
+				r.Pass("reg/replaces-only-cleaned-up-worker", key, p.posStr(fd.Pos()), fmt.Sprintf("%d store(s) into the workers map, each only on an edge where the name is absent or the existing entry's running flag is false", len(stores)))
+			}
+		}
+	}
 	// (3) worker goroutine
 	fdRun := p.FuncDecl(pkg, "OrderedDaemon", "runBackgroundWorker")
 	checkGoWaitGroup(r, p, "wg/add-before-go", pkg, fdRun, 1)
